@@ -28,6 +28,7 @@ type ddEnv struct {
 	l        *srvh.Live
 	qto      time.Duration
 	workers  int
+	known    string // first KNOWN-finding verdict of this case (repeated by "dedup end")
 	mu       sync.Mutex
 	silent   map[uint16]bool // ids whose (cancelled) leader pass must end without a reply
 	serial   int
@@ -208,8 +209,14 @@ func execDedup(f []string) vlib.Res {
 		}
 		return vlib.Res{Impl: "drained", Oracle: or, Tags: fmt.Sprintf("nt,g=%d,baseg=%d,maxlat_ms=%d", g, e.baseG, e.maxLat.Milliseconds())}
 	case "end":
+		// the case's summary line: repeats the KNOWN finding seen in it (and only that),
+		// so a witness that ends with "dedup end" still fails on its last op
+		or := ""
+		if dd != nil && dd.known != "" {
+			or = dd.known
+		}
 		closeAll()
-		return vlib.Res{Impl: "closed"}
+		return vlib.Res{Impl: "closed", Oracle: or}
 	}
 	return vlib.Res{Impl: "bad-op"}
 }
@@ -339,6 +346,9 @@ func (e *ddEnv) burst(label string, nUDP, nTCP, nMsg int, cancel string, stagger
 	}
 	if known != "" {
 		tagk = ",known-queue-expiry"
+		if e.known == "" {
+			e.known = known
+		}
 	}
 	return vlib.Res{Impl: "done", Oracle: or, Tags: fmt.Sprintf("nt,q=%d,noerror=%d,servfail=%d,stubcalls=%d,maxlat_ms=%d", len(cs), nOK, nSF, calls, e.maxLat.Milliseconds()) + tagk}
 }
